@@ -106,8 +106,7 @@ class Ctx:
         jopts = []
         if deque:
             jopts.append("-Dtlc2.tool.queue.IStateQueue=StateDeque")
-        if heap:
-            jopts.append("-Xmx%s" % heap)
+        jopts.append("-Xmx%s" % (heap or os.environ.get("VERIF_TLC_HEAP", "8g")))
         jopts.append("-Xss64m")
         env["JAVA_TOOL_OPTIONS"] = " ".join(jopts)
         t = time.time()
